@@ -81,6 +81,28 @@ pub fn stack_export_import() {
     cover!(n == 8, "marker needs a fresh word");
 }
 
+/// C16: a stack re-imported from words is a stack like any other: a bit pushed after the import
+/// pops back unchanged and the imported bits below it are untouched (the end marker must not
+/// linger in the partial word).
+#[cfg_attr(kani, kani::proof)]
+#[cfg_attr(kani, kani::unwind(13))]
+pub fn stack_import_then_push() {
+    let w0: u8 = any(); let w1: u8 = any(); let two: bool = any();
+    assume(w1 != 0);
+    let src = if two { SArr::from_slice(&[w0, w1]) } else { SArr::from_slice(&[w1]) };
+    let mut t = match StackCoder::<u8, SArr>::from_compressed(src) { Ok(t) => t, Err(_) => { assert!(false, "C16: import refused although the last word is not zero"); return; } };
+    let top = 7 - w1.leading_zeros() as usize;
+    let n0 = t.len();
+    let x: bool = any(); let y: bool = any();
+    if t.write_bit(x).is_err() || t.write_bit(y).is_err() { return; }
+    assert!(t.len() == n0 + 2, "C16/C18: length after two pushes onto an imported stack");
+    assert!(t.read_bit().unwrap() == Some(y), "C16: bit pushed onto an imported stack does not pop back unchanged");
+    assert!(t.read_bit().unwrap() == Some(x), "C16: bit pushed onto an imported stack does not pop back unchanged");
+    if top > 0 { assert!(t.read_bit().unwrap() == Some((w1 >> (top - 1)) & 1 == 1), "C16: imported bits changed by a push/pop pair"); }
+    cover!(top == 7, "marker is the top bit of the imported word");
+    cover!(top == 0, "imported word holds only the marker");
+}
+
 /// C16: from_compressed on an arbitrary last word: zero word refused; otherwise the stack holds
 /// the bits below the highest set bit of the last word, on top of 8 bits per earlier word.
 #[cfg_attr(kani, kani::proof)]
